@@ -383,10 +383,15 @@ pub enum DecompObs {
 }
 
 pub fn call_decompose(n: usize, data: &[f64], tol: Option<f64>) -> DecompObs {
+    call_decompose_with(n, data, tol, false)
+}
+
+/// with the other two settings fields given as well (they must not change the verdict)
+pub fn call_decompose_with(n: usize, data: &[f64], tol: Option<f64>, debug_and_metadata: bool) -> DecompObs {
     let st = TropicalSamplingSettings {
         matrix_stability_test: tol,
-        print_debug_info: false,
-        return_metadata: false,
+        print_debug_info: debug_and_metadata,
+        return_metadata: debug_and_metadata,
     };
     let r = catch_unwind(AssertUnwindSafe(|| {
         let m = make_matrix(n, data);
@@ -848,6 +853,25 @@ pub fn check_failure_reporting(n: usize, data: &[f64], tol: Option<f64>, acc: &m
                     case.clone(),
                 );
             }
+        }
+    }
+    // the verdict under print_debug_info / return_metadata is the verdict without them (the NaN clause in particular)
+    if tol.is_some() {
+        let kind = |o: &DecompObs| match o {
+            DecompObs::Ok(d) => format!("Ok(det bits {:016x})", d.determinant.to_bits()),
+            DecompObs::ZeroDet => "ZeroDet".to_string(),
+            DecompObs::Unstable => "Unstable".to_string(),
+            DecompObs::Panic(_) => "Panic".to_string(),
+        };
+        let loud = call_decompose_with(n, data, tol, true);
+        acc.inc("verdicts_compared_with_debug_output_on");
+        if kind(&loud) != kind(&observed) {
+            acc.violate(
+                key("verdict-depends-on-print_debug_info"),
+                "the stability verdict does not depend on print_debug_info / return_metadata",
+                format!("{} with the quiet settings but {} with print_debug_info = return_metadata = true (tol {:?})", kind(&observed), kind(&loud), tol),
+                case.clone(),
+            );
         }
     }
     match observed {
